@@ -615,7 +615,7 @@ Proof.
   - unfold in_range in H2. apply andb_true_iff in H2. destruct H2 as [H2 H2']. apply Z.leb_le in H2, H2'. lia.
   - exact I.
   - exact H2.
-  - apply negb_true_iff, Z.eqb_neq in H2. exact H2.
+  - exact I.
 Qed.
 
 Lemma in_range_pairb_sound rq rm : in_range_pairb rq rm = true -> in_range_pair rq rm.
@@ -669,3 +669,88 @@ Theorem mask_search_example :
   ref_search ex_rq ex_rm [true; true; true; true] 100 = Some [[3; 2; 1]; [3; 1; 2]; [2; 3; 1]; [2; 1; 3]; [1; 3; 2]; [1; 2; 3]] /\
   mask_search (enc_query ex_rq) (enc_mol ex_rm) [true; true; true; false] 100 = Some [].
 Proof. vm_compute. repeat split; reflexivity. Qed.
+
+(* ------------------------------------------------------------------------------------------------------------ *)
+(* 6. the guard of QueryIsomorphism.get_mapping: one component / scope call under `_cython=True` and `_cython=False`  *)
+
+Section DfsRange.
+  Variables (E : Type) (idx : E -> Z) (nbrs : Z -> list E) (last : nat) (back : nat -> Z).
+  Variable cand : nat -> list Z -> Z -> E -> bool.
+  Variable P : Z -> Prop.
+  Hypothesis nbrs_P : forall b e, In e (nbrs b) -> P (idx e).
+
+  Lemma dfs_range fuel : forall stack path acc out,
+    Forall (fun x => P (fst x)) stack -> Forall P path -> Forall (Forall P) acc ->
+    dfs E idx nbrs last back cand fuel stack path acc = Some out -> Forall (Forall P) out.
+  Proof.
+    induction fuel as [|fuel IH]; intros stack path acc out Hs Hp Ha; cbn [dfs]; [discriminate|].
+    destruct stack as [|[n d] st].
+    - intros H. inversion H; subst. apply Forall_rev. exact Ha.
+    - inversion Hs as [|? ? Hn Hst]; subst. cbn [fst] in Hn.
+      assert (Hp' : Forall P (firstn d path ++ [n])).
+      { apply Forall_app. split; [|constructor; [exact Hn | constructor]].
+        apply Forall_forall. intros x Hx. rewrite Forall_forall in Hp. apply Hp. eapply in_firstn. exact Hx. }
+      destruct (Nat.eqb d last).
+      + apply IH; [exact Hst | exact Hp | constructor; [exact Hp' | exact Ha]].
+      + apply IH; [|exact Hp' | exact Ha]. apply Forall_app. split; [|exact Hst].
+        apply Forall_forall. intros x Hx. apply in_rev in Hx. apply in_map_iff in Hx. destruct Hx as [e [<- He]].
+        apply filter_In in He. destruct He as [He _]. cbn [fst]. eapply nbrs_P. exact He.
+  Qed.
+End DfsRange.
+
+Lemma ref_search_range rq rm scope fuel out : wf_mol rm ->
+  ref_search rq rm scope fuel = Some out -> Forall (Forall (fun i => 0 <= i < zlen rm)) out.
+Proof.
+  intros Hm H. unfold ref_search, search in H.
+  eapply (dfs_range (Z * lbond) fst (fun i => ra_nbrs (r_atom rm i))); [| | constructor | constructor | exact H].
+  - intros b e He. destruct (Z_lt_le_dec b 0) as [L|L]; [|destruct (Z_lt_le_dec b (zlen rm)) as [L2|L2]].
+    + destruct (enc_mol_atom_out rm b ltac:(lia)) as [_ E]. rewrite E in He. destruct He.
+    + unfold wf_mol in Hm. rewrite Forall_forall in Hm. destruct (Hm _ (r_atom_In rm b ltac:(lia))) as [_ [_ Hn]].
+      rewrite Forall_forall in Hn. apply (Hn e He).
+    + destruct (enc_mol_atom_out rm b ltac:(lia)) as [_ E]. rewrite E in He. destruct He.
+  - unfold init_stack. apply Forall_forall. intros x Hx. apply in_rev in Hx. apply in_map_iff in Hx.
+    destruct Hx as [n [<- Hn]]. apply filter_In in Hn. destruct Hn as [Hn _]. apply zrange_In in Hn. cbn [fst]. exact Hn.
+Qed.
+
+Lemma no_unknown_h rm : has_unknown_h rm = false ->
+  forall a, In a rm -> exists h, la_h (ra_atom a) = Some h.
+Proof.
+  intros H a Ha. unfold has_unknown_h in H. destruct (la_h (ra_atom a)) as [h|] eqn:E; [exists h; reflexivity|].
+  exfalso. assert (T : existsb (fun a0 => match la_h (ra_atom a0) with None => true | Some _ => false end) rm = true).
+  { apply existsb_exists. exists a. split; [exact Ha|]. rewrite E. reflexivity. }
+  congruence.
+Qed.
+
+(* ONE COMPONENT / SCOPE CALL OF get_mapping: the dictionaries yielded with `_cython=True` (guard included) and with
+   `_cython=False` are the same sequence.  A molecule with an unknown hydrogen count needs no further hypothesis: the guard
+   sends it to the reference path; every other molecule must be well formed and inside the representable range. *)
+Theorem get_mapping_equiv rq rm scope fuel :
+  rq <> [] -> wf_query rq -> (has_unknown_h rm = false -> wf_mol rm) -> in_range_pair rq rm ->
+  component_mappings true rq rm scope fuel = component_mappings false rq rm scope fuel.
+Proof.
+  intros Hne Hq Hm Hr. unfold component_mappings, uses_mask_path. cbn [andb].
+  destruct (has_unknown_h rm) eqn:Hu; cbn [negb]; [reflexivity|].
+  specialize (Hm eq_refl). rewrite (mask_search_equiv rq rm scope fuel Hne Hq Hm Hr).
+  destruct (ref_search rq rm scope fuel) as [out|] eqn:Es; [|reflexivity]. cbn [option_map]. f_equal.
+  apply map_ext_in. intros p Hp. apply mapping_equiv.
+  pose proof (ref_search_range rq rm scope fuel out Hm Es) as Hrg. rewrite Forall_forall in Hrg. exact (Hrg p Hp).
+Qed.
+
+Theorem get_mapping_example :
+  let rm := [mkRA 1 (mkLA 6 None 0 false 1 4 (Some 1) 1 [6]) [(1, mkLB 4 true)];
+             mkRA 2 noh_atom [(0, mkLB 4 true)]] in
+  let rq := [mkRQ 1 0 (QElem 7 None (mkQX 0 false [] [] [0] [] [])) None []] in
+  has_unknown_h rm = true /\ uses_mask_path true rm = false /\
+  component_mappings true rq rm [true; true] 10 = Some [] /\ component_mappings false rq rm [true; true] 10 = Some [] /\
+  (* the mask path, had it been taken, would have accepted the nitrogen: this is what the guard prevents *)
+  option_map (map (mask_mapping (enc_query rq) (enc_mol rm))) (mask_search (enc_query rq) (enc_mol rm) [true; true] 10) = Some [[(1, 2)]].
+Proof. vm_compute. repeat split; reflexivity. Qed.
+
+Theorem get_mapping_equiv_b rq rm scope fuel : gm_hyps_ok rq rm = true ->
+  component_mappings true rq rm scope fuel = component_mappings false rq rm scope fuel.
+Proof.
+  unfold gm_hyps_ok. intros H. apply andb_true_iff in H. destruct H as [H H4]. apply andb_true_iff in H. destruct H as [H H3].
+  apply andb_true_iff in H. destruct H as [H1 H2].
+  apply get_mapping_equiv; [destruct rq; [discriminate | congruence] | apply wf_queryb_sound; exact H2 | | apply in_range_pairb_sound; exact H4].
+  intros Hu. rewrite Hu in H3. cbn [orb] in H3. apply wf_molb_sound. exact H3.
+Qed.
